@@ -11,16 +11,25 @@
   `inner`, `outer`, "what the inner plume gains the outer plume loses, and the two together
   change only by what the outer plume entrains from the ambient" reads
 
-      inner[k] + outer[k'] = E · (ambient value),      E := 2π · b_o · α₃ · u_o   (`ambEntr`, ≤ 0)
+      inner[k] + outer[k'] = E · (ambient value),      E := 2π · b_o · α₃ · u_o   (`ambEntr`; ≤ 0 for Q_o < 0 < J_o, `ambEntr_nonpos`)
 
   for volume (ambient value 1), salt (Sa), every dissolved compound j (ca_j; the inner side is the
   dissolved slot plus mass slot j of every soluble particle) and heat (ρ_r·cp·Ta; the inner
   side is slot 3 plus the heat slot of every particle, and the right-hand side carries the heat
   of solution of the dissolution gradients).  All statements are for ANY number of particles
-  and chemicals (induction over the lists in Lemmas/C06.lean) and ANY real values of the
-  records: they are ring identities, valid also under Lean's totalisation `x/0 = 0`; the real
-  code is in-domain when `u + us ≠ 0` for every particle and `M_j ≠ 0` (otherwise it returns
-  inf/nan, which the harness does not count as a state).
+  and chemicals (induction over the lists in Lemmas/C06.lean).
+
+  Why the four identities carry no domain hypotheses (u + us ≠ 0, M_j ≠ 0, list lengths = n).
+  Lean totalises `x / 0 = 0` and `List.getD`.  Each identity is an equation between sums of the
+  SAME model terms: every quotient `A·nb0/(u+us)` and `…/M_j` that occurs on the left occurs, as
+  the very same subterm, in a slot it is added to or subtracted from; no step of the proof
+  cancels a denominator (`x/x = 1`) or compares a `getD` default with a real entry.  The
+  identities therefore hold for the totalised functions for ALL inputs and a guard would only
+  weaken them.  What the guards delimit is where the model computes what the CODE computes
+  (outside, Python returns inf/nan or raises IndexError): harness/c06.py checks for every state
+  pair that the lists have length n, u + us ≠ 0 and M_j ≠ 0 (obligation "every completed state
+  pair lies in the domain …") and reports non-finite or raising real code as a violation.
+  Theorems that do need hypotheses (`j < n`, the sign of Q, `b_i = 0 ∧ Ep = 0`) state them.
 -/
 import TamocV.Real
 import TamocV.Lemmas.Basic
@@ -37,14 +46,14 @@ variable (p : Params ℝ) (n : Nat) (yi : Inner ℝ) (yo : Outer ℝ) (ps : List
 
 /-! ### the four exchange identities on the returned vectors -/
 
-/-- Volume: returned inner slot 0 + returned outer slot 0 = E. -/
+/-- Volume: returned inner slot 0 + returned outer slot 0 = E.  (No division, no list access.) -/
 theorem volume_exchange :
     (derivsInner p n yi yo ps).getD 0 0 + (derivsOuter p n yi yo).getD 0 0 = ambEntr p yo := by
   rw [derivsInner_eq]
   simp only [derivsOuter, List.cons_append, List.getD_cons_zero, innerVol, outerVol, ambEntr]
   ring
 
-/-- Salt: returned inner slot 2 + returned outer slot 2 = E·Sa. -/
+/-- Salt: returned inner slot 2 + returned outer slot 2 = E·Sa.  (No division, no list access.) -/
 theorem salt_exchange :
     (derivsInner p n yi yo ps).getD 2 0 + (derivsOuter p n yi yo).getD 2 0 = ambEntr p yo * yo.Sa := by
   rw [derivsInner_eq]
@@ -53,7 +62,8 @@ theorem salt_exchange :
   ring
 
 /-- Compound `j`: inner dissolved slot + Σ over soluble particles of inner mass slot `j`
-    + outer slot `4+j` = E·ca_j  (mass leaving the particles re-appears dissolved: `delDiss`). -/
+    + outer slot `4+j` = E·ca_j  (mass leaving the particles re-appears dissolved: `delDiss`).
+    `j < n` locates the slots; no guard on `u + us` or on list lengths is needed (file header). -/
 theorem compound_exchange (j : Nat) (hj : j < n) :
     (derivsInner p n yi yo ps).getD (dissIdx n ps + j) 0
       + sumMassSlots n j ps 4 (derivsInner p n yi yo ps)
@@ -82,7 +92,9 @@ theorem compound_exchange (j : Nat) (hj : j < n) :
 /-- Heat: inner slot 3 + Σ over particles of the inner particle-heat slot + outer slot 3
     = ρ_r·cp·E·Ta − Σ_{soluble particles, j} (inner mass slot j)·neg_dH_solR_j·Ru/M_j,
     i.e. entrained ambient heat plus the heat of solution released by the dissolution gradients
-    (the code adds `yp_mass·(−1)·neg_dH_solR·Ru/M` to `yp[3]`, l.132, and returns `−yp`). -/
+    (the code adds `yp_mass·(−1)·neg_dH_solR·Ru/M` to `yp[3]`, l.132, and returns `−yp`).
+    The quotients by `u + us` and `M_j` appear as identical subterms on both sides (file header):
+    no guard is needed for the identity; the harness checks `u + us ≠ 0`, `M_j ≠ 0` per state. -/
 theorem heat_exchange :
     (derivsInner p n yi yo ps).getD 3 0
       + sumHeatSlots n ps 4 (derivsInner p n yi yo ps)
@@ -103,83 +115,80 @@ theorem heat_exchange :
     outerHeat, ambEntr]
   ring
 
-/-- Not claimed by the property, recorded because the same hand-copied exchange term sits in the
-    momentum equations: weighted by the momentum amplification factors the exchanged momentum
-    cancels and only the two buoyancy terms remain. -/
-theorem momentum_exchange_extra (hi : p.gamma_i ≠ 0) (ho : p.gamma_o ≠ 0) :
-    p.gamma_i * (derivsInner p n yi yo ps).getD 1 0 + p.gamma_o * (derivsOuter p n yi yo).getD 1 0
-    = -(pi * p.g * yi.b ^ 2 / p.rho_r
-          * (yi.Fb + p.lambda_2 ^ 2 * (1 - yi.Xi) * (yi.rho_a - yi.rho)))
-      - pi * p.g * (yo.b ^ 2 - yi.b ^ 2) / p.rho_r * (yo.rho_a - yo.rho) := by
-  rw [derivsInner_eq]
-  simp only [derivsOuter, List.cons_append, List.getD_cons_zero, List.getD_cons_succ, innerMom,
-    outerMom, Num.real_npow, Num.real_one]
-  field_simp
-  ring
+/-! ### composed with `OuterPlume.update`: the exchange in terms of the outer STATE
 
-/-! ### no outer plume: the inner plume exchanges with the ambient -/
+  `yo := outerUpdate p y Ta Sa rho_a ca dens bi` is the record `OuterPlume.update` derives from the
+  outer state vector `y = [Q, J, S, H, C…]`, the ambient look-ups at the depth and the inner
+  half-width `bi`. -/
 
-/-- `OuterPlume.update` with `Q ≥ 0` (no outer plume, or its momentum is reversing) leaves the
-    ambient record: u = b = 0, s = Sa, T = Ta, c = ca, rho = rho_a. -/
-theorem outerUpdate_absent (y : List ℝ) (Ta Sa rho_a : ℝ) (ca : List ℝ) (dens : ℝ → ℝ → ℝ) (bi : ℝ)
-    (h : ¬ y.getD 0 0 < 0) :
-    outerUpdate p y Ta Sa rho_a ca dens bi = outerAbsent Ta Sa rho_a ca := by
-  simp only [outerUpdate, Num.real_zero]
-  rw [if_neg h]
+variable (y : List ℝ) (Ta Sa rho_a : ℝ) (ca : List ℝ) (dens : ℝ → ℝ → ℝ) (bi : ℝ)
 
-/-- the all-zero state `derivs_inner` substitutes above the top of the outer plume
-    (`yo.update(z, np.zeros(yo.len), …)`, l.89) is such a state -/
-theorem outerUpdate_zeros (k : Nat) (Ta Sa rho_a : ℝ) (ca : List ℝ) (dens : ℝ → ℝ → ℝ) (bi : ℝ) :
-    outerUpdate p (List.replicate k 0) Ta Sa rho_a ca dens bi = outerAbsent Ta Sa rho_a ca := by
-  apply outerUpdate_absent
-  cases k <;> simp [List.replicate]
+/-- Outer plume present (`Q < 0`): the ambient entrainment is `2π·√(Q²/(πJ) + b_i²)·α₃·J/Q`. -/
+theorem ambEntr_of_state (hQ : y.getD 0 0 < 0) :
+    ambEntr p (outerUpdate p y Ta Sa rho_a ca dens bi)
+    = 2 * pi * Real.sqrt (y.getD 0 0 ^ 2 / (pi * y.getD 1 0) + bi ^ 2) * p.alpha_3
+        * (y.getD 1 0 / y.getD 0 0) := by
+  obtain ⟨hu, hb, -⟩ := outerUpdate_present p y Ta Sa rho_a ca dens bi hQ
+  simp only [ambEntr, hu, hb]
 
-/-- with an outer plume present (`Q < 0`) the derived quantities are those of l.1522-1527 -/
-theorem outerUpdate_present (y : List ℝ) (Ta Sa rho_a : ℝ) (ca : List ℝ) (dens : ℝ → ℝ → ℝ) (bi : ℝ)
-    (h : y.getD 0 0 < 0) :
-    (outerUpdate p y Ta Sa rho_a ca dens bi).u = y.getD 1 0 / y.getD 0 0 ∧
-    (outerUpdate p y Ta Sa rho_a ca dens bi).b
-      = Real.sqrt (y.getD 0 0 ^ 2 / (pi * y.getD 1 0) + bi ^ 2) ∧
-    (outerUpdate p y Ta Sa rho_a ca dens bi).s = y.getD 2 0 / y.getD 0 0 ∧
-    (outerUpdate p y Ta Sa rho_a ca dens bi).T = y.getD 3 0 / (p.rho_r * p.cp * y.getD 0 0) ∧
-    (outerUpdate p y Ta Sa rho_a ca dens bi).Sa = Sa ∧
-    (outerUpdate p y Ta Sa rho_a ca dens bi).Ta = Ta ∧
-    (outerUpdate p y Ta Sa rho_a ca dens bi).ca = ca := by
-  simp only [outerUpdate, Num.real_zero]
-  rw [if_pos h]
-  simp
+/-- Downward flow (`Q < 0`, `J > 0`) and `α₃ ≥ 0`: the sum of the two plumes' volume gradients
+    `E` is ≤ 0 — with z the depth, the (negative) outer volume flux grows in magnitude by what it
+    entrains from the ambient. -/
+theorem ambEntr_nonpos (hQ : y.getD 0 0 < 0) (hJ : 0 < y.getD 1 0) (ha : 0 ≤ p.alpha_3) :
+    ambEntr p (outerUpdate p y Ta Sa rho_a ca dens bi) ≤ 0 := by
+  rw [ambEntr_of_state p y Ta Sa rho_a ca dens bi hQ]
+  have hpi : (0 : ℝ) ≤ 2 * pi := by
+    simp only [pi, Num.real_ofSci]; norm_num
+  have hs := Real.sqrt_nonneg (y.getD 0 0 ^ 2 / (pi * y.getD 1 0) + bi ^ 2)
+  have hu : y.getD 1 0 / y.getD 0 0 ≤ 0 := div_nonpos_of_nonneg_of_nonpos hJ.le hQ.le
+  have h1 : 0 ≤ 2 * pi * Real.sqrt (y.getD 0 0 ^ 2 / (pi * y.getD 1 0) + bi ^ 2) * p.alpha_3 :=
+    mul_nonneg (mul_nonneg hpi hs) ha
+  exact mul_nonpos_of_nonneg_of_nonpos h1 hu
 
-variable (Ta Sa rho_a : ℝ) (ca : List ℝ)
+/-- Volume exchange for a present outer plume, entirely in terms of the outer state. -/
+theorem volume_exchange_of_state (hQ : y.getD 0 0 < 0) :
+    (derivsInner p n yi (outerUpdate p y Ta Sa rho_a ca dens bi) ps).getD 0 0
+      + (derivsOuter p n yi (outerUpdate p y Ta Sa rho_a ca dens bi)).getD 0 0
+    = 2 * pi * Real.sqrt (y.getD 0 0 ^ 2 / (pi * y.getD 1 0) + bi ^ 2) * p.alpha_3
+        * (y.getD 1 0 / y.getD 0 0) := by
+  rw [volume_exchange, ambEntr_of_state p y Ta Sa rho_a ca dens bi hQ]
 
-/-- no ambient entrainment term without an outer plume -/
-theorem absent_outer_entrainment : ambEntr p (outerAbsent Ta Sa rho_a ca) = 0 := by
-  simp [ambEntr, outerAbsent]
+/-! ### no outer plume (`Q ≥ 0`, in particular the all-zero state substituted by `derivs_inner`
+    above the outer plume): the inner plume exchanges with the ambient
 
-/-- volume: the inner plume entrains `2π b α_s u` of AMBIENT water (and peels `Ep`) -/
-theorem absent_outer_volume :
-    (derivsInner p n yi (outerAbsent Ta Sa rho_a ca) ps).getD 0 0
-    = -(2 * pi * yi.b * (yi.alpha_s * yi.u) + yi.Ep) := by
-  rw [derivsInner_eq]
-  simp only [List.cons_append, List.getD_cons_zero, innerVol, outerAbsent, Num.real_zero,
-    Num.real_ofNat]
-  ring
+  No guard beyond `¬ Q < 0` is needed: the statements are ring identities in the record fields. -/
+
+/-- volume: the inner plume entrains `2π b α_s u` of AMBIENT water (and peels `Ep`); the outer
+    vector carries the same amount with the opposite sign -/
+theorem absent_outer_volume (h : ¬ y.getD 0 0 < 0) :
+    (derivsInner p n yi (outerUpdate p y Ta Sa rho_a ca dens bi) ps).getD 0 0
+      = -(2 * pi * yi.b * (yi.alpha_s * yi.u) + yi.Ep)
+    ∧ (derivsInner p n yi (outerUpdate p y Ta Sa rho_a ca dens bi) ps).getD 0 0
+      + (derivsOuter p n yi (outerUpdate p y Ta Sa rho_a ca dens bi)).getD 0 0 = 0 := by
+  constructor
+  · rw [outerUpdate_absent p y Ta Sa rho_a ca dens bi h, derivsInner_eq]
+    simp only [List.cons_append, List.getD_cons_zero, innerVol, outerAbsent, Num.real_zero,
+      Num.real_ofNat]
+    ring
+  · rw [volume_exchange, outerUpdate_absent p y Ta Sa rho_a ca dens bi h, ambEntr_absent]
 
 /-- salt: the entrained water carries the AMBIENT salinity -/
-theorem absent_outer_salt :
-    (derivsInner p n yi (outerAbsent Ta Sa rho_a ca) ps).getD 2 0
+theorem absent_outer_salt (h : ¬ y.getD 0 0 < 0) :
+    (derivsInner p n yi (outerUpdate p y Ta Sa rho_a ca dens bi) ps).getD 2 0
     = -(2 * pi * yi.b * (yi.alpha_s * yi.u) * Sa + yi.Ep * yi.s) := by
-  rw [derivsInner_eq]
+  rw [outerUpdate_absent p y Ta Sa rho_a ca dens bi h, derivsInner_eq]
   simp only [List.cons_append, List.getD_cons_zero, List.getD_cons_succ, innerSalt, outerAbsent,
     Num.real_zero, Num.real_ofNat]
   ring
 
 /-- compound `j` (dissolved + carried by particles): entrained at the AMBIENT concentration -/
-theorem absent_outer_compound (j : Nat) (hj : j < n) :
-    (derivsInner p n yi (outerAbsent Ta Sa rho_a ca) ps).getD (dissIdx n ps + j) 0
-      + sumMassSlots n j ps 4 (derivsInner p n yi (outerAbsent Ta Sa rho_a ca) ps)
+theorem absent_outer_compound (h : ¬ y.getD 0 0 < 0) (j : Nat) (hj : j < n) :
+    (derivsInner p n yi (outerUpdate p y Ta Sa rho_a ca dens bi) ps).getD (dissIdx n ps + j) 0
+      + sumMassSlots n j ps 4 (derivsInner p n yi (outerUpdate p y Ta Sa rho_a ca dens bi) ps)
     = -(2 * pi * yi.b * (yi.alpha_s * yi.u) * ca.getD j 0 + yi.Ep * yi.c.getD j 0) := by
+  rw [outerUpdate_absent p y Ta Sa rho_a ca dens bi h]
   have h := compound_exchange p n yi (outerAbsent Ta Sa rho_a ca) ps j hj
-  rw [absent_outer_entrainment] at h
+  rw [ambEntr_absent] at h
   have ho : (derivsOuter p n yi (outerAbsent Ta Sa rho_a ca)).getD (4 + j) 0
       = 2 * pi * yi.b * (yi.alpha_s * yi.u) * ca.getD j 0 + yi.Ep * yi.c.getD j 0 := by
     unfold derivsOuter
@@ -194,13 +203,14 @@ theorem absent_outer_compound (j : Nat) (hj : j < n) :
   linarith
 
 /-- heat (continuous phase + particles): entrained at the AMBIENT temperature, plus heat of solution -/
-theorem absent_outer_heat :
-    (derivsInner p n yi (outerAbsent Ta Sa rho_a ca) ps).getD 3 0
-      + sumHeatSlots n ps 4 (derivsInner p n yi (outerAbsent Ta Sa rho_a ca) ps)
+theorem absent_outer_heat (h : ¬ y.getD 0 0 < 0) :
+    (derivsInner p n yi (outerUpdate p y Ta Sa rho_a ca dens bi) ps).getD 3 0
+      + sumHeatSlots n ps 4 (derivsInner p n yi (outerUpdate p y Ta Sa rho_a ca dens bi) ps)
     = -(p.rho_r * p.cp * (2 * pi * yi.b * (yi.alpha_s * yi.u) * Ta + yi.Ep * yi.T))
-      - sumHos p n ps 4 (derivsInner p n yi (outerAbsent Ta Sa rho_a ca) ps) := by
+      - sumHos p n ps 4 (derivsInner p n yi (outerUpdate p y Ta Sa rho_a ca dens bi) ps) := by
+  rw [outerUpdate_absent p y Ta Sa rho_a ca dens bi h]
   have h := heat_exchange p n yi (outerAbsent Ta Sa rho_a ca) ps
-  rw [absent_outer_entrainment] at h
+  rw [ambEntr_absent] at h
   have ho : (derivsOuter p n yi (outerAbsent Ta Sa rho_a ca)).getD 3 0
       = p.rho_r * p.cp * (2 * pi * yi.b * (yi.alpha_s * yi.u) * Ta + yi.Ep * yi.T) := by
     simp only [derivsOuter, List.cons_append, List.getD_cons_zero, List.getD_cons_succ, outerHeat,
@@ -209,35 +219,26 @@ theorem absent_outer_heat :
   rw [ho] at h
   linarith
 
-/-! ### a discrepancy common to both copies does not disturb the identities
+/-! ### no inner plume (`InnerPlume.update` with `Q ≤ 0` leaves `b = 0`, `Ep = 0`; `derivs_outer`
+    substitutes the all-zero inner state below the release, l.219-220): the outer plume exchanges
+    with the ambient alone -/
 
-  If the code's vectors `v'`, `w'` differ from vectors `v`, `w` (for instance the model's) only in
-  that one and the same amount `d` has been added to the un-negated inner `yp` slot and to the
-  outer `yp` slot — what a change made consistently to both hand copies of an exchange term
-  produces — while the particle block is untouched, the left-hand sides of the identities are
-  unchanged.  (harness/c06.py uses this to tell a stale transcription from a violation.) -/
+theorem inner_absent_outer (hb : yi.b = 0) (hE : yi.Ep = 0) :
+    (derivsOuter p n yi yo).getD 0 0 = ambEntr p yo ∧
+    (derivsOuter p n yi yo).getD 2 0 = ambEntr p yo * yo.Sa ∧
+    (derivsOuter p n yi yo).getD 3 0 = p.rho_r * p.cp * ambEntr p yo * yo.Ta := by
+  simp only [derivsOuter, List.cons_append, List.getD_cons_zero, List.getD_cons_succ, outerVol,
+    outerSalt, outerHeat, ambEntr, hb, hE]
+  refine ⟨by ring, by ring, by ring⟩
 
-theorem common_shift_slot (v w v' w' : List ℝ) (d : ℝ) (k k' : Nat)
-    (hv : v'.getD k 0 = v.getD k 0 - d) (hw : w'.getD k' 0 = w.getD k' 0 + d) :
-    v'.getD k 0 + w'.getD k' 0 = v.getD k 0 + w.getD k' 0 := by
-  rw [hv, hw]; ring
-
-theorem common_shift_compound (v w v' w' : List ℝ) (d : ℝ) (j : Nat) (hj : j < n)
-    (hpart : ∀ k, 4 ≤ k → k < dissIdx n ps → v'.getD k 0 = v.getD k 0)
-    (hv : v'.getD (dissIdx n ps + j) 0 = v.getD (dissIdx n ps + j) 0 - d)
-    (hw : w'.getD (4 + j) 0 = w.getD (4 + j) 0 + d) :
-    v'.getD (dissIdx n ps + j) 0 + sumMassSlots n j ps 4 v' + w'.getD (4 + j) 0
-    = v.getD (dissIdx n ps + j) 0 + sumMassSlots n j ps 4 v + w.getD (4 + j) 0 := by
-  rw [sumMassSlots_congr n j hj ps 4 v v' (fun k h1 h2 => hpart k h1 (by unfold dissIdx; exact h2)), hv, hw]
-  ring
-
-theorem common_shift_heat (v w v' w' : List ℝ) (d : ℝ)
-    (hpart : ∀ k, 4 ≤ k → k < dissIdx n ps → v'.getD k 0 = v.getD k 0)
-    (hv : v'.getD 3 0 = v.getD 3 0 - d) (hw : w'.getD 3 0 = w.getD 3 0 + d) :
-    v'.getD 3 0 + sumHeatSlots n ps 4 v' + w'.getD 3 0 + sumHos p n ps 4 v'
-    = v.getD 3 0 + sumHeatSlots n ps 4 v + w.getD 3 0 + sumHos p n ps 4 v := by
-  rw [sumHeatSlots_congr n ps 4 v v' (fun k h1 h2 => hpart k h1 (by unfold dissIdx; exact h2)),
-    sumHos_congr p n ps 4 v v' (fun k h1 h2 => hpart k h1 (by unfold dissIdx; exact h2)), hv, hw]
+theorem inner_absent_outer_compound (hb : yi.b = 0) (hE : yi.Ep = 0) (j : Nat) (hj : j < n) :
+    (derivsOuter p n yi yo).getD (4 + j) 0 = ambEntr p yo * yo.ca.getD j 0 := by
+  unfold derivsOuter
+  have := getD_tail [outerVol p yi yo, outerMom p yi yo, outerSalt p yi yo, outerHeat p yi yo]
+    ((List.range n).map (outerChem p yi yo)) j
+  simp only [List.length_cons, List.length_nil] at this
+  rw [this, getD_map_range _ _ _ hj]
+  simp only [outerChem, ambEntr, hb, hE, Num.real_zero]
   ring
 
 /-! ### non-vacuity: a concrete state (one soluble two-component bubble class, one inert droplet
@@ -281,9 +282,12 @@ example : massSum exYi [exGas, exOil] 0 < 0 := by
     List.sum_nil, Num.real_zero]
   norm_num
 
-/-- the guards of `momentum_exchange_extra` and of the two `outerUpdate` branches are satisfiable -/
-example : exP.gamma_i ≠ 0 ∧ exP.gamma_o ≠ 0 := by
+/-- the guards of the `…_of_state` / `absent_outer_…` theorems (both `outerUpdate` branches) and of
+    `ambEntr_nonpos` are satisfiable -/
+example : 0 ≤ exP.alpha_3 := by
   simp only [exP]; norm_num
+example : (0 : ℝ) < ([-2, 1/5, -68, -2300000000, 0, -1/1000] : List ℝ).getD 1 0 := by
+  simp [List.getD]
 example : ([-2, 1/5, -68, -2300000000, 0, -1/1000] : List ℝ).getD 0 0 < 0 := by
   simp [List.getD]
 example : ¬ ([0, 0, 0, 0, 0, 0] : List ℝ).getD 0 0 < 0 := by
